@@ -88,7 +88,7 @@ func decodeEvent(ev sgbucket.FeedEvent) ObsEvent {
 		return o
 	}
 	val := ev.Value
-	if ev.DataType&sgbucket.FeedDataTypeXattr != 0 {
+	if ev.DataType&sgbucket.FeedDataTypeXattr != 0 && len(ev.Value) > 0 { // (keys-only events keep the bit but carry no value)
 		body, xattrs, err := sgbucket.DecodeValueWithAllXattrs(ev.Value)
 		if err != nil {
 			o.DecodeErr = err.Error()
